@@ -506,10 +506,13 @@ package proxy
 //@ func NewSingleHostReverseProxy
 //@   ensures result != nil
 //@ func (*ReverseProxy).UseInsecureTransport
+//@   modifies Transport.TLSClientConfig, RoundTripper.TLSClientConfig, Config.InsecureSkipVerify
 //@   requires rp != nil
 //@ func (*ReverseProxy).UseOwnCACertificates
+//@   modifies Transport.TLSClientConfig, RoundTripper.TLSClientConfig, Config.RootCAs
 //@   requires rp != nil
 //@ func (*ReverseProxy).UseClientCertificates
+//@   modifies Transport.TLSClientConfig, RoundTripper.TLSClientConfig, Config.Certificates, E:crypto/tls.Certificate
 //@   requires rp != nil && keyPair != nil
 //@ // a resolver answering without error returns non-nil records (net.LookupSRV does): assumed
 //@ extern invoke:(github.com/tmpim/casket/caskethttp/proxy.srvResolver).LookupSRV
@@ -530,6 +533,7 @@ package proxy
 //@ func (headerReplacements).Del
 //@   modifies MV:map[string][]github.com/tmpim/casket/caskethttp/proxy.headerReplacement, MD:map[string][]github.com/tmpim/casket/caskethttp/proxy.headerReplacement
 //@ func (*staticUpstream).NewHost
+//@   modifies Transport.TLSClientConfig, RoundTripper.TLSClientConfig, Config.Certificates, E:crypto/tls.Certificate, Config.InsecureSkipVerify, Config.RootCAs
 //@   requires u != nil
 //@   ensures [backend_or_error] (result1 == nil) == (result0 != nil)
 //@   ensures [backend_has_its_proxy] result1 == nil ==> result0.ReverseProxy != nil
@@ -725,7 +729,7 @@ package proxy
 //@ ghost registered int
 //@ ghost shutdownRegs int
 //@ func NewStaticUpstreams
-//@   modifies ghost:built, Dispenser.cursor, Dispenser.nesting, WaitGroup.noCopy, WaitGroup.sema, WaitGroup.state
+//@   modifies ghost:built, Dispenser.cursor, Dispenser.nesting, WaitGroup.noCopy, WaitGroup.sema, WaitGroup.state, staticUpstream, Client.CheckRedirect, Client.Jar, Client.Timeout, Client.Transport, E:*github.com/tmpim/casket/caskethttp/proxy.UpstreamHost, E:github.com/tmpim/casket/caskethttp/proxy.headerReplacement, MD:map[string][]github.com/tmpim/casket/caskethttp/proxy.headerReplacement, MV:map[string][]github.com/tmpim/casket/caskethttp/proxy.headerReplacement, Uint64._, Uint64.v, staticUpstream.CaCertPool, staticUpstream.ClientKeyPair, staticUpstream.FailTimeout, staticUpstream.FallbackDelay, staticUpstream.HealthCheck, staticUpstream.Hosts, staticUpstream.IgnoredSubPaths, staticUpstream.KeepAlive, staticUpstream.MaxConns, staticUpstream.MaxFails, staticUpstream.Policy, staticUpstream.Timeout, staticUpstream.TryDuration, staticUpstream.TryInterval, staticUpstream.WithoutPathPrefix, staticUpstream.downstreamHeaderReplacements, staticUpstream.downstreamHeaders, staticUpstream.from, staticUpstream.insecureSkipVerify, staticUpstream.resolver, staticUpstream.stop, staticUpstream.upstreamHeaderReplacements, staticUpstream.upstreamHeaders, staticUpstream.wg
 //@   ensures built == old(built) + 1
 //@   ensures result1 == nil ==> forall(k, 0, len(result0), result0[k] != nil)
 //@ extern (github.com/tmpim/casket/caskethttp/httpserver.SiteConfig).Host
@@ -737,7 +741,7 @@ package proxy
 //@   ensures shutdownRegs == old(shutdownRegs) + 1
 //@ func setup
 //@   requires c != nil && built == 0 && registered == 0 && shutdownRegs == 0
-//@   modifies ghost:built, ghost:registered, ghost:shutdownRegs, Dispenser.cursor, Dispenser.nesting, WaitGroup.noCopy, WaitGroup.sema, WaitGroup.state
+//@   modifies ghost:built, ghost:registered, ghost:shutdownRegs, Dispenser.cursor, Dispenser.nesting, WaitGroup.noCopy, WaitGroup.sema, WaitGroup.state, staticUpstream, Client.CheckRedirect, Client.Jar, Client.Timeout, Client.Transport, E:*github.com/tmpim/casket/caskethttp/proxy.UpstreamHost, E:github.com/tmpim/casket/caskethttp/proxy.headerReplacement, MD:map[string][]github.com/tmpim/casket/caskethttp/proxy.headerReplacement, MV:map[string][]github.com/tmpim/casket/caskethttp/proxy.headerReplacement, Uint64._, Uint64.v, staticUpstream.CaCertPool, staticUpstream.ClientKeyPair, staticUpstream.FailTimeout, staticUpstream.FallbackDelay, staticUpstream.HealthCheck, staticUpstream.Hosts, staticUpstream.IgnoredSubPaths, staticUpstream.KeepAlive, staticUpstream.MaxConns, staticUpstream.MaxFails, staticUpstream.Policy, staticUpstream.Timeout, staticUpstream.TryDuration, staticUpstream.TryInterval, staticUpstream.WithoutPathPrefix, staticUpstream.downstreamHeaderReplacements, staticUpstream.downstreamHeaders, staticUpstream.from, staticUpstream.insecureSkipVerify, staticUpstream.resolver, staticUpstream.stop, staticUpstream.upstreamHeaderReplacements, staticUpstream.upstreamHeaders, staticUpstream.wg
 //@   at call (*github.com/tmpim/casket/caskethttp/httpserver.SiteConfig).AddMiddleware before [registered_after_this_runs_own_parse] built == 1
 //@   ensures [one_handler_and_one_shutdown_callback_per_upstream] built == 1 && (result == nil ==> (registered == 1 && shutdownRegs == len(upstreams))) && (result != nil ==> (registered == 0 && shutdownRegs == 0))
 //@   loop 1 invariant 0 <= #i && #i <= len(upstreams) && shutdownRegs == #i && registered == 1 && built == 1
